@@ -63,6 +63,8 @@ def run(ctx):
         datas.append((b, 0))
     for b in bytesgen.numeric_key_maps():
         datas.append((b, 0))
+    for b in bytesgen.late_bombs():
+        datas.append((b, 0))
     depths = [10, 100, 1000, 20000, 200000] if ctx.tier == "quick" else [10, 100, 500, 1000, 1500, 20000, 200000, 1000000]
     for kind, d, b in bytesgen.nesting_chains(depths):
         datas.append((b, d))
